@@ -961,9 +961,7 @@ pub fn gen(g: &mut Gen) {
         "2147483647", "2147483648", "-2147483648", "-2147483649", "0001444.1.1", "000001444.11.11", "0000001444.11.11", "1444.011.11", "1444.11.011", "1444.1.1.001",
         "05.5.3`.3", "1444.257.1", "1444.1.257", "60000.1.1", "-60000.1.1", "1.1.1", "1.01.01", "+123.11.11", "+12.11.11", "+123.1.1", "+1444.1.1"] {
         for op in ops4 { g.emit(format!("{} {}", op, hex(s.as_bytes()))); }
-        // i64::MIN: Model/Scalar.lean (C11) not yet updated for /repo 8327848; the date parsers
-        // are unaffected (the value is outside i16/i32 either way) and still get the string
-        if s != "-9223372036854775808" { g.emit(format!("i64t {}", hex(s.as_bytes()))); }
+        g.emit(format!("i64t {}", hex(s.as_bytes())));
     }
     g.count("corner-strings");
 
